@@ -25,6 +25,18 @@ PARTS = {'quick': 4, 'thorough': 3}
 WALKS = {'quick': (60, 120), 'thorough': (600, 300)}
 BUDGET = {'quick': 45, 'thorough': 600}
 
+# prefix-seeded exploration (states a search from boot reaches only at depth 8+): a session under a pending boot
+# timer, a stop / drop whose close has not completed yet, a restart on top of it
+PREFIXES = [
+    ['START', 'ACCEPT', 'OPEN', 'KA'],
+    ['TICK', 'ACCEPT', 'OPEN', 'KA', 'STOP'],
+    ['TICK', 'ACCEPT', 'OPEN', 'KA', 'NOTI_CEASE'],
+    ['TICK', 'ACCEPT', 'OPEN', 'KA', 'STOP', 'START'],
+    ['TICK', 'ACCEPT', 'OPEN', 'BADMARK', 'START'],
+    ['START', 'STOP', 'START'],
+]
+PREFIX_DEPTH = {'quick': 5, 'thorough': 7}
+
 
 def cfg_for(retry, defer=False):
     c = dict(time_opts={'connect_retry_time': retry})
@@ -42,6 +54,10 @@ def plan(tier, seed):
         if retry in (10, 30):
             for p in range(PARTS[tier]):
                 shards.append(dict(kind='bfs', retry=retry, part=p, nparts=PARTS[tier], d0=d0, depth=d, budget=BUDGET[tier], defer=True))
+    for i, pre in enumerate(PREFIXES):
+        for retry in (10, 30):
+            shards.append(dict(kind='bfs', retry=retry, part=0, nparts=1, d0=1, depth=PREFIX_DEPTH[tier], budget=BUDGET[tier],
+                               defer=bool((i + retry // 10) % 2 == 0) or tier == 'thorough', start=[pre]))
     n, length = WALKS[tier]
     nshard = 4 if tier == 'quick' else 16
     for i in range(nshard):
@@ -73,7 +89,7 @@ def run_shard(sh):
                 viol.setdefault((v['kind'], tuple(v['features'])), v)
 
         ex = S.bfs_shard(cfg, [LedgerMonitor], S.ALPHABET_SMALL, sh['d0'], sh['depth'], sh['part'], sh['nparts'],
-                         multi=True, on_state=on_state, time_budget=sh['budget'], on_run=note)
+                         multi=True, on_state=on_state, time_budget=sh['budget'], on_run=note, start=sh.get('start'))
         viol.update({k: v for k, v in ex.viol.items() if k not in viol})
         res['evaluations'] = ex.execs
         res['distinct'] = ['%s|%s|%d' % (sh['retry'], sh.get('defer', False), hash(k)) for k in ex.seen]
@@ -81,6 +97,8 @@ def run_shard(sh):
                                same_instant_choice_points=ex.choice_points, silent_300s_continuations=stats['finals'],
                                connect_attempts_observed=stats['attempts'], late_accepts=stats['late'],
                                writes_observed=stats['writes'], truncated_shards=int(ex.truncated))
+        if sh.get('start'):
+            res['counters']['prefix_seeded_sequences'] = ex.execs
         res['maxima'] = dict(max_simultaneous_live_connectors=stats['max_live'], depth_reached=ex.depth_reached)
         res['sets'] = dict(connect_retry_times=[sh['retry']], close_completion=['deferred (separate event)' if sh.get('defer') else 'same instant'])
         res['violations'] = list(viol.values())
